@@ -53,6 +53,7 @@ type frame struct {
 	predOcc          int // which occurrence of prevBlock among block.Preds the taken edge is
 	depth            int
 	lenient          bool // package initialiser: unsupported callees yield zero values
+	raceOwner        int8 // race monitor: who performs accesses made in this frame (cached)
 }
 
 func mustDeref(t types.Type) types.Type {
@@ -218,6 +219,11 @@ func visitInstr(fr *frame, instr ssa.Instruction) continuation {
 				R.checkWatched(p, "read", fr)
 			}
 		}
+		if instr.Op == token.MUL && R.raceOn() {
+			if p, ok := fr.get(instr.X).(*value); ok {
+				R.raceLoad(p, fr, instr)
+			}
+		}
 		fr.env[instr] = unop(instr, fr.get(instr.X))
 	case *ssa.BinOp:
 		fr.env[instr] = binop(instr.Op, instr.X.Type(), fr.get(instr.X), fr.get(instr.Y))
@@ -270,6 +276,9 @@ func visitInstr(fr *frame, instr ssa.Instruction) continuation {
 		if R.watched != nil {
 			R.checkWatched(addr, "write", fr)
 		}
+		if R.raceOn() {
+			R.raceStore(addr, fr, instr)
+		}
 		store(mustDeref(instr.Addr.Type()), addr, fr.get(instr.Val))
 	case *ssa.If:
 		succ := 1
@@ -321,6 +330,11 @@ func visitInstr(fr *frame, instr ssa.Instruction) continuation {
 	case *ssa.MakeMap:
 		fr.env[instr] = newMap(instr.Type().Underlying().(*types.Map))
 	case *ssa.Range:
+		if R.raceOn() {
+			if m, ok := fr.get(instr.X).(*smap); ok {
+				R.raceMap(m, false, fr, instr)
+			}
+		}
 		fr.env[instr] = rangeIter(fr.get(instr.X), instr.X.Type())
 	case *ssa.Next:
 		fr.env[instr] = fr.get(instr.Iter).(iter).next()
@@ -364,11 +378,19 @@ func visitInstr(fr *frame, instr ssa.Instruction) continuation {
 			panic(engineErr{fmt.Sprintf("unexpected x type in Index: %T", x)})
 		}
 	case *ssa.Lookup:
+		if R.raceOn() {
+			if m, ok := fr.get(instr.X).(*smap); ok {
+				R.raceMap(m, false, fr, instr)
+			}
+		}
 		fr.env[instr] = lookup(instr, fr.get(instr.X), fr.get(instr.Index))
 	case *ssa.MapUpdate:
 		m := fr.get(instr.Map).(*smap)
 		if m == nil {
 			panic(targetPanic{iface{I.runtimeErrorString, "assignment to entry in nil map"}})
+		}
+		if R.raceOn() {
+			R.raceMap(m, true, fr, instr)
 		}
 		m.insert(copyVal(fr.get(instr.Key)), copyVal(fr.get(instr.Value)))
 	case *ssa.TypeAssert:
